@@ -240,14 +240,22 @@ func c10Run(t *testing.T, h []int) (res seqx.Result) {
 				if x == nu+4 {
 					k, expiry = 1, 10*c10U
 				}
+				// "Log k0 (expiry 2s)" always logs the SAME content (a repeat notification of an unchanged group): the entry
+				// must still move to the new timestamp and expiry; the other two vary their content with the step
 				st := NewStore(nil)
-				st.SetInt("n", int64(step))
+				firing, data := []uint64{9, uint64(step)}, fmt.Sprintf("n=i%d,s=slocal", step)
+				if x == nu+3 {
+					firing, data = []uint64{9}, "n=i7,s=slocal"
+					st.SetInt("n", 7)
+				} else {
+					st.SetInt("n", int64(step))
+				}
 				st.SetStr("s", "local")
-				if err := y.l.Log(c10Keys[k].r, c10Keys[k].gk, []uint64{9, uint64(step)}, nil, st, expiry); err != nil {
+				if err := y.l.Log(c10Keys[k].r, c10Keys[k].gk, firing, nil, st, expiry); err != nil {
 					fail("log-error", err.Error())
 				}
 				if cur, ok := y.m[k]; !ok || !cur.ts.After(now) {
-					y.m[k] = c10Ent{now, now.Add(eff), fmt.Sprintf("n=i%d,s=slocal", step), fmt.Sprint([]uint64{9, uint64(step)})}
+					y.m[k] = c10Ent{now, now.Add(eff), data, fmt.Sprint(firing)}
 				}
 			case x == nu+5:
 				if _, err := y.l.GC(); err != nil {
